@@ -18,7 +18,11 @@ import (
 	codectypes "github.com/cosmos/cosmos-sdk/codec/types"
 	sdk "github.com/cosmos/cosmos-sdk/types"
 	ethtypes "github.com/ethereum/go-ethereum/core/types"
+	"github.com/cosmos/cosmos-sdk/codec"
+	"github.com/cosmos/cosmos-sdk/runtime"
+	paramstypes "github.com/cosmos/cosmos-sdk/x/params/types"
 	keeperutil "github.com/palomachain/paloma/v2/util/keeper"
+	conskeeper "github.com/palomachain/paloma/v2/x/consensus/keeper"
 	"github.com/palomachain/paloma/v2/util/libcons"
 	"github.com/palomachain/paloma/v2/util/palomath"
 	"github.com/palomachain/paloma/v2/verifharness/emit"
@@ -462,7 +466,182 @@ func TestCorr(t *testing.T) {
 		_ = cq.Remove(qctx, id)
 	}
 
+	// ---- end-block election through the real consensus keeper (CheckAndProcessEstimatedMessages) ----
+	runEndBlock(t, run, r, stateStore, storeKey)
+
 	if err := run.Finish("Cons.Quorum Corr.C04", "C04.case", "C04.check"); err != nil {
 		t.Fatal(err)
+	}
+}
+
+// ---- keeper-level fixture ----
+type stubValset struct{ snap *valsettypes.Snapshot }
+
+func (s *stubValset) GetSigningKey(context.Context, sdk.ValAddress, string, string, string) ([]byte, error) {
+	return nil, nil
+}
+func (s *stubValset) GetCurrentSnapshot(context.Context) (*valsettypes.Snapshot, error) { return s.snap, nil }
+func (s *stubValset) CanAcceptValidator(context.Context, sdk.ValAddress) error           { return nil }
+func (s *stubValset) KeepValidatorAlive(context.Context, sdk.ValAddress, string) error   { return nil }
+func (s *stubValset) Jail(context.Context, sdk.ValAddress, string) error                 { return nil }
+
+type stubFees struct{}
+
+func (stubFees) GetCombinedFeesForRelay(context.Context, sdk.ValAddress, string) (*types.MessageFeeSettings, error) {
+	// multiplicators <= 1 so that the fee arithmetic (not C04's subject) cannot overflow uint64
+	return &types.MessageFeeSettings{
+		RelayerFee:   sdkmath.LegacyMustNewDecFromStr("1"),
+		CommunityFee: sdkmath.LegacyMustNewDecFromStr("0.3"),
+		SecurityFee:  sdkmath.LegacyMustNewDecFromStr("0.01"),
+	}, nil
+}
+
+type oneQueue struct{ opt *consensus.QueueOptions }
+
+func (q oneQueue) SupportedQueues(context.Context) ([]consensus.SupportsConsensusQueueAction, error) {
+	return []consensus.SupportsConsensusQueueAction{{QueueOptions: *q.opt}}, nil
+}
+
+func runEndBlock(t *testing.T, run *emit.Run, r *rand.Rand, stateStore storetypes.CommitMultiStore, storeKey *storetypes.KVStoreKey) {
+	ireg := codectypes.NewInterfaceRegistry()
+	appCodec := codec.NewProtoCodec(ireg)
+	types.RegisterInterfaces(ireg)
+	evmtypes.RegisterInterfaces(ireg)
+	ireg.RegisterImplementations((*types.ConsensusMsg)(nil), &evmtypes.Message{})
+	memKey := storetypes.NewMemoryStoreKey(types.MemStoreKey)
+	ps := paramstypes.NewSubspace(appCodec, types.Amino, storeKey, memKey, "ConsensusParams")
+	vs := &stubValset{}
+	kreg := conskeeper.NewRegistry()
+	qname := types.Queue("verif-eb", "evm", "bla")
+	kreg.Add(oneQueue{opt: consensus.ApplyOpts(nil,
+		consensus.WithQueueTypeName(qname),
+		consensus.WithStaticTypeCheck(&evmtypes.Message{}),
+		consensus.WithChainInfo("evm", "bla"),
+		consensus.WithVerifySignature(func([]byte, []byte, []byte) bool { return true }),
+	)})
+	k := conskeeper.NewKeeper(appCodec, runtime.NewKVStoreService(storeKey), ps, vs, kreg, stubFees{})
+	ctx := sdk.NewContext(stateStore, tmproto.Header{}, false, log.NewNopLogger())
+
+	nEB := run.N / 5
+	for i := 0; i < nEB; i++ {
+		requires := r.Intn(8) != 0
+		msg := &evmtypes.Message{TurnstoneID: "abc", ChainReferenceID: "bla", Assignee: valAddr(0).String()}
+		switch r.Intn(3) {
+		case 0:
+			msg.Action = &evmtypes.Message_SubmitLogicCall{SubmitLogicCall: &evmtypes.SubmitLogicCall{}}
+		case 1:
+			msg.Action = &evmtypes.Message_UploadUserSmartContract{UploadUserSmartContract: &evmtypes.UploadUserSmartContract{}}
+		}
+		id, err := k.PutMessageInQueue(ctx, qname, msg, &consensus.PutOptions{RequireSignatures: true, RequireGasEstimation: requires})
+		if err != nil {
+			t.Fatal(err)
+		}
+		n := 1 + r.Intn(6)
+		ids := r.Perm(8)[:n]
+		shares := genShares(r, n)
+		sn, tot := snapshotOf(ids, shares)
+		if tot.Sign() == 0 {
+			shares[0] = big.NewInt(1)
+			sn, tot = snapshotOf(ids, shares)
+		}
+		base := emit.U64(r)
+		var ops []string
+		type est struct {
+			id int
+			v  uint64
+		}
+		var stored []est
+		elected := uint64(0)
+		nops := 2 + r.Intn(12)
+		for j := 0; j < nops; j++ {
+			if r.Intn(3) != 0 {
+				v := r.Intn(10)
+				if r.Intn(3) != 0 {
+					v = ids[r.Intn(len(ids))]
+				}
+				val := base + uint64(r.Intn(5))
+				switch r.Intn(6) {
+				case 0:
+					val = emit.U64(r)
+				case 1:
+					val = 0
+				}
+				err := k.AddMessageGasEstimates(ctx, valAddr(v), []*types.MsgAddMessageGasEstimates_GasEstimate{{MsgId: id, QueueTypeName: qname, Value: val}})
+				if err == nil {
+					stored = append(stored, est{v, val})
+				}
+				ops = append(ops, fmt.Sprintf("C04.EEstimate %d %s %s", v, emit.ZU(val), emit.Bool(err == nil)))
+				continue
+			}
+			if r.Intn(4) == 0 { // the valset moved on
+				n = 1 + r.Intn(6)
+				ids = r.Perm(8)[:n]
+				shares = genShares(r, n)
+				sn, tot = snapshotOf(ids, shares)
+				if tot.Sign() == 0 {
+					shares[0] = big.NewInt(1)
+					sn, tot = snapshotOf(ids, shares)
+				}
+			}
+			vs.snap = sn
+			if err := k.CheckAndProcessEstimatedMessages(ctx); err != nil {
+				t.Fatal(err)
+			}
+			m, err := k.GetMessagesFromQueue(ctx, qname, 0)
+			if err != nil || len(m) != 1 {
+				t.Fatalf("queue read: %v (%d msgs)", err, len(m))
+			}
+			now := m[0].GetGasEstimate()
+			if now != elected {
+				if elected != 0 {
+					run.Violate("C04:elected-estimate-changed", fmt.Sprintf("end-block changed an elected estimate %d -> %d", elected, now), map[string]any{"ops": ops})
+				} else {
+					backing := new(big.Int)
+					lo, hi := ^uint64(0), uint64(0)
+					for _, e := range stored {
+						for kx, sid := range ids {
+							if sid == e.id {
+								backing.Add(backing, shares[kx])
+							}
+						}
+						if e.v < lo {
+							lo = e.v
+						}
+						if e.v > hi {
+							hi = e.v
+						}
+					}
+					if new(big.Int).Mul(backing, big.NewInt(3)).Cmp(new(big.Int).Mul(tot, big.NewInt(2))) < 0 {
+						run.Violate("C04:estimate-without-quorum", "end-block elected an estimate with less than 2/3 of snapshot shares behind the estimates",
+							map[string]any{"snapshot": coqSnapshot(ids, shares, tot), "ops": ops})
+					}
+					if len(stored) == 0 || now < lo || now > hi {
+						run.Violate("C04:median-outside-range", fmt.Sprintf("end-block elected %d outside [%d,%d]", now, lo, hi), map[string]any{"ops": ops})
+					}
+					if !requires {
+						run.Violate("C04:elected-without-flag", "estimate elected on a message that does not require estimation", map[string]any{"ops": ops})
+					}
+				}
+				elected = now
+				run.Count("endblock", "elected")
+			} else {
+				run.Count("endblock", "no-change")
+			}
+			ops = append(ops, fmt.Sprintf("C04.EBlock %s %s", coqSnapshot(ids, shares, tot), emit.ZU(now)))
+		}
+		m, err := k.GetMessagesFromQueue(ctx, qname, 0)
+		if err != nil || len(m) != 1 {
+			t.Fatalf("queue read: %v (%d msgs)", err, len(m))
+		}
+		var esItems []string
+		for _, e := range m[0].GetGasEstimates() {
+			esItems = append(esItems, emit.Pair(emit.ZI(int64(e.ValAddress[19])), emit.ZU(e.Value)))
+		}
+		run.Count("kind", "endblock")
+		run.Case(fmt.Sprintf("C04.CEndBlock %s %s %s %s", emit.Bool(requires), emit.List(ops), emit.List(esItems), emit.ZU(m[0].GetGasEstimate())),
+			len(ops) >= 3 && requires, map[string]any{"kind": "endblock", "requires_estimate": requires, "ops": ops})
+		if err := k.DeleteJob(ctx, qname, id); err != nil {
+			t.Fatal(err)
+		}
 	}
 }
